@@ -92,6 +92,46 @@ def doDft (l : Line) : Option String := do
       some (out sh y)
   | _ => none
 
+/-- `dftadj num=x|f impl=np|fftw inv= plus= hc= real= exp2= rshape= axes= x=`
+`op.adjoint(x)` of a plain DFT operator (`inv=1`: of a `DiscreteFourierTransformInverse`), `plus` the
+operator's own sign, `impl` the back-end the RETURNED operator runs on, `exp2`: both exponents 2. -/
+def doDftAdj (l : Line) : Option String := do
+  let num ← l.get? "num"; let impl ← l.get? "impl"
+  let inv ← l.bool? "inv"; let plus ← l.bool? "plus"; let hc ← l.bool? "hc"
+  let real ← l.bool? "real"; let exp2 ← l.bool? "exp2"
+  let rshape ← l.nats? "rshape"; let axes ← l.nats? "axes"
+  let fftw ← (match impl with | "np" => some false | "fftw" => some true | _ => none)
+  let last ← axes.getLast?
+  match dftAdjointStatus exp2 exp2 with
+  | some e => some e
+  | none =>
+  -- the adjoint of a forward operator eats frequency-side arrays
+  let inShape := if !inv then rshape.zipIdx.map fun (n, a) => if hc && a == last then hcLen n else n
+                 else rshape
+  let xs ← l.get? "x"
+  match num with
+  | "x" =>
+    let x ← parseCList xs
+    if !checkShape rshape axes (Wavelet.prod rshape) || x.length ≠ Wavelet.prod inShape then none
+    let (sh, y) ← dftAdjointNd exactRoots CRat.conj (fun z => ⟨z.re, 0⟩) fftw inv plus hc rshape axes
+        x.toArray
+    let y := if real && !inv then y.map (fun z => (⟨z.re, 0⟩ : CRat)) else y
+    some s!"ok shape={showNatList sh} y={showCList y.toList}"
+  | "f" =>
+    let x ← parseList parseCF xs
+    if !checkShape rshape axes (Wavelet.prod rshape) || x.length ≠ Wavelet.prod inShape then none
+    let (sh, y) ← dftAdjointNd floatRoots CF.conj (fun z => ⟨z.re, 0⟩) fftw inv plus hc rshape axes
+        x.toArray
+    let y := if real && !inv then y.map (fun z => (⟨z.re, 0⟩ : CF)) else y
+    some s!"ok shape={showNatList sh} y={showList CF.str y.toList}"
+  | _ => none
+
+/-- `dftrangector fshape= given=`: does the constructor of a plain DFT operator build its range -/
+def doDftRangeCtor (l : Line) : Option String := do
+  let fs ← l.nats? "fshape"; let g ← l.bool? "given"
+  if fs.isEmpty || fs.any (· = 0) then none
+  some ((dftDefaultRangeStatus fs g).getD "ok")
+
 /-- `ft impl=np|fftw inv= plus= hc= realdom= rshape= axes= shifts= x0= s= x=`
 `FourierTransform` / `FourierTransformInverse`.  `x0`, `s`: per-AXIS-OF-THE-ARRAY minimum
 point and stride of the real-space grid (exact rationals of the floats).  Both back-ends. -/
@@ -262,6 +302,8 @@ def handle (l : Line) : Option String :=
   | "pre" => doPre l
   | "freqs" => doFreqs l
   | "dft" => doDft l
+  | "dftadj" => doDftAdj l
+  | "dftrangector" => doDftRangeCtor l
   | "dftrange" => doDftRange l
   | "plan" => doPlan l
   | "ctor" => doCtor l
